@@ -7,7 +7,7 @@ use std::collections::BTreeMap;
 use fetchlab::{WorkerJob, WorkerObs};
 use radicle::node::config::{Config, Relay};
 use radicle::node::policy::Scope;
-use radicle::node::{Alias, FetchResult, Handle as _, DEFAULT_TIMEOUT};
+use radicle::node::{Alias, FetchResult, Handle as _};
 use radicle::storage::ReadStorage;
 use radicle_node::test::environment::Node;
 
@@ -42,7 +42,48 @@ fn refs_of(path: &std::path::Path) -> BTreeMap<String, String> {
     out
 }
 
+/// A failure that says nothing about the property: the two nodes did not get to exchange the repository
+/// (machine load, timeouts, connection problems). Everything else that makes a fetch fail is a verdict of
+/// the fetch itself (threshold, validation, signatures, missing or diverged refs…).
+fn is_infrastructure(reason: &str) -> bool {
+    let r = reason.to_lowercase();
+    [
+        "handshake", "timed out", "timeout", "connection", "consume the pack", "not connected", "disconnect",
+        "broken pipe", "reset", "eof", "i/o", "io error", "session", "unavailable", "busy", "would block",
+        "channel", "worker", "no such file", "interrupted", "closed",
+    ]
+    .iter()
+    .any(|k| r.contains(k))
+}
+
+/// Run the scenario through two fresh nodes; an infrastructure failure is retried (3 attempts in all, with a
+/// generous fetch timeout). `Err("inconclusive: …")` if no attempt got a verdict.
 pub fn run(job: &WorkerJob) -> Result<WorkerObs, String> {
+    let mut last = String::new();
+    for attempt in 0..3 {
+        match attempt_once(job) {
+            Ok(obs) if obs.success || !is_infrastructure(&obs.detail) => return Ok(obs),
+            Ok(obs) => last = obs.detail,
+            Err(e) => last = e,
+        }
+        std::thread::sleep(std::time::Duration::from_millis(500 * (attempt + 1)));
+    }
+    Err(format!("inconclusive: {last}"))
+}
+
+fn attempt_once(job: &WorkerJob) -> Result<WorkerObs, String> {
+    // a panic inside the test environment (e.g. a node that did not come up under load) is infrastructure too
+    match std::panic::catch_unwind(std::panic::AssertUnwindSafe(|| attempt(job))) {
+        Ok(r) => r,
+        Err(_) => Err("worker environment panicked".to_string()),
+    }
+}
+
+fn attempt(job: &WorkerJob) -> Result<WorkerObs, String> {
+    // test knob: pretend the nodes never connect
+    if std::env::var("FETCHLAB_WORKER_UNREACHABLE").is_ok() {
+        return Err("connection timed out (forced)".to_string());
+    }
     let tmp = tempfile::tempdir().map_err(|e| e.to_string())?;
     let cfg = |alias: &'static str| Config { relay: Relay::Always, ..Config::test(Alias::new(alias)) };
     let server = Node::init(tmp.path(), cfg("server"));
@@ -62,7 +103,7 @@ pub fn run(job: &WorkerJob) -> Result<WorkerObs, String> {
     server.handle.seed(job.rid, Scope::All).map_err(|e| e.to_string())?;
     fetcher.connect(&server);
     fetcher.handle.seed(job.rid, Scope::All).map_err(|e| e.to_string())?;
-    let result = fetcher.handle.fetch(job.rid, server.id, DEFAULT_TIMEOUT).map_err(|e| e.to_string())?;
+    let result = fetcher.handle.fetch(job.rid, server.id, std::time::Duration::from_secs(90)).map_err(|e| e.to_string())?;
     let (success, detail) = match &result {
         FetchResult::Success { .. } => (true, String::new()),
         FetchResult::Failed { reason } => (false, reason.clone()),
